@@ -333,6 +333,7 @@ func (e *Engine) Exec(tx Tx) *Report {
 	}
 
 	// =========== successful transaction
+	e.checkSound(&tx, e.M)
 	// adopt the model effects
 	if txExp == DontCare {
 		e.adoptObserved(&tx, rep)
